@@ -37,7 +37,15 @@ type RecvSpec struct {
 	Clause Clause
 }
 
+// GhostSet: ghost assignment performed at function exit: sets <var> = <expr>
+type GhostSet struct {
+	Var string
+	E   *Expr
+	Src string
+}
+
 type FuncContract struct {
+	Sets        []GhostSet
 	Recvs       []RecvSpec
 	CallSites   []CallSiteSpec
 	File        string
@@ -107,7 +115,7 @@ type ContractFile struct {
 var clauseKeywords = map[string]bool{
 	"func": true, "lemma": true, "extern": true, "opaque": true, "pure": true, "props": true, "arith": true,
 	"requires": true, "ensures": true, "modifies": true, "loop": true, "inline": true, "trusted": true,
-	"nosafe": true, "effectfree": true, "uses": true, "ghost": true, "assigns": true, "logged": true, "callsite": true, "where": true, "global": true, "recvfrom": true,
+	"nosafe": true, "effectfree": true, "uses": true, "ghost": true, "assigns": true, "logged": true, "callsite": true, "where": true, "global": true, "recvfrom": true, "sets": true,
 }
 
 var labelRe = regexp.MustCompile(`^([A-Za-z_][A-Za-z0-9_]*)\s*:\s*([^:=].*)$`)
@@ -353,6 +361,18 @@ func ParseContractFile(path, pkgPath string) (*ContractFile, error) {
 				if c, ok := parseClause(rc.line, strings.TrimSpace(body), fmt.Sprintf("c%d", len(cur.CallSites)+1)); ok {
 					cur.CallSites = append(cur.CallSites, CallSiteSpec{Callee: strings.TrimSpace(callee), Ord: ord, Clause: c})
 				}
+			case "sets":
+				v, body, ok := strings.Cut(rest, "=")
+				if !ok {
+					addErr(rc.line, "sets <ghost var> = <expr>")
+					continue
+				}
+				e, err := ParseSpec(strings.TrimSpace(body))
+				if err != nil {
+					addErr(rc.line, "%v", err)
+					continue
+				}
+				cur.Sets = append(cur.Sets, GhostSet{Var: strings.TrimSpace(v), E: e, Src: rest})
 			case "recvfrom":
 				ch, body, ok := strings.Cut(rest, ":")
 				if !ok {
